@@ -80,14 +80,101 @@ pub fn arb_case() -> impl Strategy<Value = Case> {
         arb_warp_text(),
         arb_body(),
         proptest::bool::weighted(0.2),
+        // size classes: pad one of node / lane / body so that the routed frame (32 byte header +
+        // node + lane + body) has exactly a boundary size (4 KiB, 8 KiB, 64 KiB, each -1 / 0 / +1, and beyond)
+        prop_oneof![
+            300 => Just(None),
+            2 => (0u8..3, proptest::sample::select(&crate::sock::SIZE_CLASSES[..6]), 0u8..3).prop_map(Some),
+            1 => (0u8..3, proptest::sample::select(&crate::sock::SIZE_CLASSES[6..]), 0u8..3).prop_map(Some),
+        ],
     )
-        .prop_map(|(kind, node, lane, body, no_body)| Case {
-            kind,
-            node,
-            lane,
-            body: if kind.has_body() { body } else { String::new() },
-            no_body: no_body && kind == Kind::Unlinked,
+        .prop_map(|(kind, mut node, mut lane, body, no_body, pad)| {
+            let no_body = no_body && kind == Kind::Unlinked;
+            let mut body = if kind.has_body() && !no_body { body } else { String::new() };
+            if let Some((which, target, fill)) = pad {
+                let target = target as usize;
+                let which = if which == 2 && !(kind.has_body() && !no_body) { 0 } else { which };
+                if which == 2 {
+                    // a string literal body of exactly the missing size
+                    let fixed = 32 + node.len() + lane.len();
+                    if target > fixed + 2 {
+                        body = format!("\"{}\"", "a".repeat(target - fixed - 2));
+                    }
+                } else {
+                    let fixed = 32 + node.len() + lane.len() + body.len();
+                    if target > fixed {
+                        let padding = ["a", " ", "\""][fill as usize].repeat(target - fixed);
+                        if which == 0 {
+                            node.push_str(&padding);
+                        } else {
+                            lane.push_str(&padding);
+                        }
+                    }
+                }
+            }
+            Case { kind, node, lane, body, no_body }
         })
+}
+
+/// What `OutgoingTask` does before it hands a message to `ReconEncoder`: the source wrote it to a
+/// byte channel with the raw routed-frame encoder, the task reads it back with the raw decoder
+/// (`FramedRead`, so the bytes arrive in pieces). Returns what the decoder produced.
+fn through_routed_codec(case: &Case, split: usize) -> Result<Option<Either<BytesRequestMessage, BytesResponseMessage>>, String> {
+    use swimos_messages::protocol::{RawRequestMessageDecoder, RawRequestMessageEncoder, RawResponseMessageDecoder, RawResponseMessageEncoder, RequestMessage, ResponseMessage};
+    use tokio_util::codec::Decoder;
+    let id = Uuid::from_u128(7);
+    let path = RelativeAddress::new(case.node.as_str(), case.lane.as_str());
+    let body = case.body.as_bytes();
+    let mut wire = BytesMut::new();
+    let request = match case.kind {
+        Kind::Link => Some(RequestMessage::<&str, &[u8]>::link(id, path)),
+        Kind::Sync => Some(RequestMessage::sync(id, path)),
+        Kind::Unlink => Some(RequestMessage::unlink(id, path)),
+        Kind::Command => Some(RequestMessage::command(id, path, body)),
+        _ => None,
+    };
+    let is_request = request.is_some();
+    if let Some(r) = request {
+        RawRequestMessageEncoder.encode(r, &mut wire).map_err(|e| e.to_string())?;
+    } else {
+        let path = RelativeAddress::new(case.node.as_str(), case.lane.as_str());
+        let r: ResponseMessage<&str, &[u8], &[u8]> = match case.kind {
+            Kind::Linked => ResponseMessage::linked(id, path),
+            Kind::Synced => ResponseMessage::synced(id, path),
+            Kind::Unlinked => ResponseMessage::unlinked(id, path, if case.no_body { None } else { Some(body) }),
+            Kind::Event => ResponseMessage::event(id, path, body),
+            _ => return Ok(None),
+        };
+        RawResponseMessageEncoder.encode(r, &mut wire).map_err(|e| e.to_string())?;
+    }
+    // feed the decoder as a FramedRead would: a first piece, then the rest
+    let split = split.min(wire.len());
+    let mut buf = BytesMut::new();
+    buf.extend_from_slice(&wire[..split]);
+    let mut req_dec = RawRequestMessageDecoder;
+    let mut resp_dec = RawResponseMessageDecoder;
+    for round in 0..2 {
+        let item = if is_request {
+            req_dec.decode(&mut buf).map_err(|e| format!("request decoder: {}", e))?.map(Either::Left)
+        } else {
+            resp_dec.decode(&mut buf).map_err(|e| format!("response decoder: {}", e))?.map(Either::Right)
+        };
+        if let Some(item) = item {
+            if !buf.is_empty() || (round == 0 && split < wire.len()) {
+                return Err("the decoder produced a message before / without consuming the whole frame".into());
+            }
+            return Ok(Some(item));
+        }
+        if round == 0 {
+            buf.extend_from_slice(&wire[split..]);
+        }
+    }
+    Err(format!("the decoder produced nothing from a complete frame of {} bytes", wire.len()))
+}
+
+pub enum Either<A, B> {
+    Left(A),
+    Right(B),
 }
 
 pub fn encode(case: &Case) -> BytesMut {
@@ -162,7 +249,37 @@ fn show(s: &str) -> String {
 pub fn check(case: &Case) -> Verdict {
     let mut v = Verdict::new();
     let k = case.kind.name();
-    let bytes = encode(case);
+    let frame_len = 32 + case.node.len() + case.lane.len() + case.body.len();
+    // first hop: source -> byte channel -> outgoing task
+    let bytes = match through_routed_codec(case, (frame_len * 7 / 10).max(1)) {
+        Ok(None) => encode(case),
+        Ok(Some(msg)) => {
+            let mut dst = BytesMut::new();
+            let r = match msg {
+                Either::Left(m) => {
+                    if m.path.node.as_str() != case.node || m.path.lane.as_str() != case.lane {
+                        v.fail(format!("pure:routed-codec:{}", k), "node / lane changed in the routed-frame codec".to_string());
+                    }
+                    ReconEncoder.encode(m, &mut dst)
+                }
+                Either::Right(m) => {
+                    if m.path.node.as_str() != case.node || m.path.lane.as_str() != case.lane {
+                        v.fail(format!("pure:routed-codec:{}", k), "node / lane changed in the routed-frame codec".to_string());
+                    }
+                    ReconEncoder.encode(m, &mut dst)
+                }
+            };
+            r.expect("the encoder is documented as infallible");
+            dst
+        }
+        Err(e) => {
+            v.fail(
+                format!("pure:routed-codec:{}", k),
+                format!("a {} envelope whose routed frame has {} bytes does not survive the byte-channel codec: {}", k, frame_len, e),
+            );
+            encode(case)
+        }
+    };
     let exp_lane: &str = if case.kind == Kind::NoAgent { "" } else { &case.lane };
     let exp_body: &str = match case.kind {
         Kind::NoAgentLane | Kind::NoAgent => "@nodeNotFound",
@@ -237,6 +354,10 @@ pub fn check(case: &Case) -> Verdict {
     );
     v.class_if(case.node.contains('%') || case.lane.contains('%'), "name:percent");
     v.class_if(case.node.len() > 500 || case.lane.len() > 500, "name:long");
+    v.class_if(frame_len >= 4095 && frame_len <= 4097, "frame~4KiB");
+    v.class_if(frame_len >= 8191 && frame_len <= 8193, "frame~8KiB");
+    v.class_if(frame_len >= 65535 && frame_len <= 65537, "frame~64KiB");
+    v.class_if(frame_len > 65537, "frame>64KiB");
     if case.kind.has_body() && !case.no_body {
         v.class(body_class(&case.body));
     }
